@@ -49,7 +49,12 @@ PInit(cfg) ==
 Init == l = 1 /\ p = PInit(NoCfg) /\ bad = <<>> /\ nbad = 0 /\ done = FALSE
 Ev == Tr[l]
 If(c, name) == IF c THEN <<name>> ELSE <<>>
-Flag(rules) == /\ bad' = (IF Len(bad) < 100 THEN bad \o [i \in 1..Len(rules) |-> <<rules[i], l>>] ELSE bad)
+\* at most 20 entries per rule are kept (so that frequent refusals of one rule never hide another rule's)
+Count(b, name) == Cardinality({j \in 1..Len(b) : b[j][1] = name})
+RECURSIVE AddAll(_, _, _)
+AddAll(b, rules, i) == IF i > Len(rules) THEN b
+                       ELSE AddAll(IF Count(b, rules[i]) < 20 THEN Append(b, <<rules[i], l>>) ELSE b, rules, i + 1)
+Flag(rules) == /\ bad' = AddAll(bad, rules, 1)
                /\ nbad' = nbad + Len(rules)
 NoFlag == bad' = bad /\ nbad' = nbad
 SC(s) == p.cfg.streams[s + 1]
